@@ -615,6 +615,10 @@ class Sim:
                 p.exiting = status
             for fn in p.atexit:
                 fn()
+            # greenlets die with the main greenlet (no join at interpreter exit, unlike executor threads)
+            for x in p.tasks:
+                if x.greenlet and x.state != "done" and x is not t:
+                    x.killed = True
             if not t.is_main:
                 # SystemExit raised in a greenlet ends the whole process (it propagates to the hub / main greenlet)
                 self._finalize_exit(p, p.exiting)
